@@ -256,6 +256,7 @@ impl Exec {
       for b in blocks {
         s.world.mine(b);
       }
+      s.world_log.push(NodeEvent::Mine(blocks.to_vec()));
       s.clock_ms += 600_000 * blocks.len() as u64;
     });
   }
@@ -263,6 +264,10 @@ impl Exec {
   pub fn reorg(&mut self, depth: u32, blocks: &[BlockSpec]) -> u32 {
     self.sim.snapshot(|s| {
       let d = s.world.reorg(depth, blocks);
+      s.world_log.push(NodeEvent::Reorg {
+        depth,
+        blocks: blocks.to_vec(),
+      });
       *s.faults_total.entry("reorg_between_updates".into()).or_default() += 1;
       s.note(&format!("reorg depth={d} new={}", blocks.len()));
       d
